@@ -17,7 +17,7 @@ from sismic.model import Event, Statechart, CompoundState, BasicState, FinalStat
 ID = 'C18'
 LEVEL = 'fault_enumeration'
 RUN_LIMIT_CPU_S = 600     # one run enumerates hundreds of fault positions in the thorough tier
-BUDGET = {'quick': 25, 'thorough': 300}
+BUDGET = {'quick': 40, 'thorough': 300}
 BLOCK = 8
 STREAM_ORDER = ['ops', 'guards', 'faults', 'chart', 'cfg']
 RULE = ('well-formed chart with contracts reading __old__, history states, sends and delayed events; a seeded script of queue (with '
